@@ -827,6 +827,14 @@ func dischargeIndexSite(c *Check, ca *cursorAnalysis, s IndexSite) (discharge, b
 			}
 			return discharge{"cursor", fmt.Sprintf("high bound %s has fact %s; need low <= high <= len(path) from the same strings.Index", vstr(x.High), hi)}, false
 		}
+		// s[:i], s[i:], s[i+1:] with i the result of a strings.Index* search in the same s, on the found edge
+		if how, ok := dischargeSearchSlice(fn, x); ok {
+			return how, true
+		}
+		// s[:n], s[n:] under a guard len(s) >= n with n a length or a non-negative constant
+		if how, ok := dischargeLenGuardedSlice(fn, x); ok {
+			return how, true
+		}
 		// segment.String()[1:]
 		if cl := asCall(x.X); cl != nil && callName(&cl.Call) == "(*route.Segment).String" && x.High == nil {
 			if k, ok := constInt(x.Low); ok && k == 1 {
@@ -854,28 +862,66 @@ func segmentStringStartsWithSlash(p *Prog) bool {
 	if m == nil {
 		return false
 	}
-	for _, lit := range m.AnonFuncs {
+	// the function (String itself or a literal below it) that writes the text
+	var fns []*ssa.Function
+	var walk func(f *ssa.Function)
+	walk = func(f *ssa.Function) {
+		fns = append(fns, f)
+		for _, a := range f.AnonFuncs {
+			walk(a)
+		}
+	}
+	walk(m)
+	isWrite := func(n string) bool {
+		return strings.HasPrefix(n, "(*bytes.Buffer).Write") || strings.HasPrefix(n, "(*strings.Builder).Write")
+	}
+	for _, f := range fns {
 		var first ssa.CallInstruction
-		for _, in := range lit.Blocks[0].Instrs {
-			if ci, ok := in.(ssa.CallInstruction); ok && strings.HasPrefix(callName(ci.Common()), "(*bytes.Buffer).Write") {
+		if len(f.Blocks) == 0 {
+			continue
+		}
+		for _, in := range f.Blocks[0].Instrs {
+			if ci, ok := in.(ssa.CallInstruction); ok && isWrite(callName(ci.Common())) {
 				first = ci
 				break
 			}
 		}
-		if first == nil || callName(first.Common()) != "(*bytes.Buffer).WriteString" || !vConstStr("/")(first.Common().Args[1]) {
+		if first == nil {
+			// writes elsewhere in this function but not in its entry block: unknown first byte
+			has := false
+			allInstrs(f, func(in ssa.Instruction) {
+				if ci, ok := in.(ssa.CallInstruction); ok && isWrite(callName(ci.Common())) {
+					has = true
+				}
+			})
+			if has {
+				return false
+			}
+			continue
+		}
+		n := callName(first.Common())
+		arg := first.Common().Args[1]
+		slash := (strings.HasSuffix(n, ".WriteString") && vConstStr("/")(arg)) || ((strings.HasSuffix(n, ".WriteByte") || strings.HasSuffix(n, ".WriteRune")) && vConstInt('/')(arg))
+		if !slash {
 			return false
 		}
 		buf := first.Common().Args[0]
-		okStore := false
-		allInstrs(lit, func(in ssa.Instruction) {
-			if st, ok := in.(*ssa.Store); ok {
-				if f := fieldOf(strip(st.Addr)); f != nil && f.Name() == "str" {
-					okStore = vCall("(*bytes.Buffer).String", vIs(buf))(st.Val)
+		text := vOr(vCall("(*bytes.Buffer).String", vIs(buf)), vCall("(*strings.Builder).String", vIs(buf)))
+		okSink := false
+		allInstrs(f, func(in ssa.Instruction) {
+			switch x := in.(type) {
+			case *ssa.Store:
+				if fv := fieldOf(strip(x.Addr)); fv != nil && text(x.Val) {
+					okSink = true
+				}
+			case *ssa.Return:
+				if len(x.Results) == 1 && text(x.Results[0]) {
+					okSink = true
 				}
 			}
 		})
-		// no other write may precede: the first write instruction in the entry block dominates all others
-		return okStore
+		// the first write instruction in the entry block dominates all others
+		return okSink
 	}
 	return false
 }
@@ -1190,4 +1236,87 @@ func orderDependentMapLoops(fn *ssa.Function) []string {
 		}
 	})
 	return out
+}
+
+// dischargeSearchSlice: a slice of s bounded by i (or i+1) where i is the result of
+// strings.Index*(s, …) on the edge where something was found: 0 <= i < len(s).
+func dischargeSearchSlice(fn *ssa.Function, x *ssa.Slice) (discharge, bool) {
+	if x.Max != nil {
+		return discharge{}, false
+	}
+	var idx ssa.Value
+	okBound := func(b ssa.Value, allowPlusOne bool) bool {
+		if b == nil {
+			return true
+		}
+		l := linOf(b)
+		if len(l.t) != 1 || (l.k != 0 && !(allowPlusOne && l.k == 1)) {
+			return false
+		}
+		for v, c := range l.t {
+			if c != 1 || !isSearchResult(v) {
+				return false
+			}
+			cl := asCall(v)
+			if strip(cl.Call.Args[0]) != strip(x.X) {
+				return false
+			}
+			if idx != nil && idx != v {
+				return false
+			}
+			idx = v
+		}
+		return true
+	}
+	if (x.Low == nil && x.High == nil) || !okBound(x.Low, true) || !okBound(x.High, true) || idx == nil {
+		return discharge{}, false
+	}
+	if x.Low != nil && x.High != nil {
+		return discharge{}, false
+	}
+	g := notMinusOne(fn, idx)
+	if ok, _ := guardedBy(fn, g, isInstr(x)); !ok || len(g) == 0 {
+		return discharge{}, false
+	}
+	return discharge{"search-result", "slice of s at the offset strings.Index*(s, …) returned, only on the edge where the offset is >= 0 (so it is < len(s))"}, true
+}
+
+// dischargeLenGuardedSlice: s[:n] or s[n:] reachable only when len(s) >= n, n a length or constant >= 0.
+func dischargeLenGuardedSlice(fn *ssa.Function, x *ssa.Slice) (discharge, bool) {
+	if x.Max != nil || (x.Low != nil) == (x.High != nil) {
+		return discharge{}, false
+	}
+	n := x.Low
+	if n == nil {
+		n = x.High
+	}
+	nonneg := vLen(vAny)(n)
+	if k, ok := constInt(n); ok && k >= 0 {
+		nonneg = true
+	}
+	if !nonneg {
+		return discharge{}, false
+	}
+	ln := linOf(n)
+	short := cLinLess(func(d lin) bool {
+		// len(s) − n < 0
+		want := lin{t: map[ssa.Value]int64{}}
+		var lenV ssa.Value
+		for v, c := range d.t {
+			if c == 1 && vLen(vIs(x.X))(v) {
+				lenV = v
+			}
+		}
+		_ = canonAtom
+		if lenV == nil {
+			return false
+		}
+		want.t[lenV] = 1
+		return d.equal(want.plus(ln, -1))
+	})
+	g := edgesWhere(fn, short, false)
+	if ok, _ := guardedBy(fn, g, isInstr(x)); !ok || len(g) == 0 {
+		return discharge{}, false
+	}
+	return discharge{"length-guard", "slice at n only on the edge where len(s) >= n, n non-negative"}, true
 }
